@@ -83,13 +83,13 @@ func project(v reflect.Value) any {
 		out := M{}
 		for i := 0; i < t.NumField(); i++ {
 			f := t.Field(i)
-			if f.PkgPath != "" { // unexported
+			k := f.Type.Kind()
+			if f.PkgPath != "" && !(f.Anonymous && k == reflect.Struct) { // unexported (embedded structs promote their exported fields)
 				continue
 			}
 			if f.Name == "BaseLayer" {
 				continue
 			}
-			k := f.Type.Kind()
 			if k == reflect.Interface || k == reflect.Func || k == reflect.Chan {
 				continue
 			}
